@@ -1,4 +1,5 @@
 import WebrtcVerif.Base.Wire
+import WebrtcVerif.Drv.C37
 import WebrtcVerif.Drv.C09
 import WebrtcVerif.Drv.C07
 import WebrtcVerif.Drv.C06
@@ -82,6 +83,7 @@ def runLine (toks : List String) : String :=
   | "C06" :: rest => Drv.C06.run rest
   | "C07" :: rest => Drv.C07.run rest
   | "C09" :: rest => Drv.C09.run rest
+  | "C37" :: rest => Drv.C37.run rest
   | _ => "bad-op"
 
 def judgeLine (toks : List String) : String :=
@@ -125,6 +127,7 @@ def judgeLine (toks : List String) : String :=
   | "C06" :: rest => Drv.C06.judge rest out
   | "C07" :: rest => Drv.C07.judge rest out
   | "C09" :: rest => Drv.C09.judge rest out
+  | "C37" :: rest => Drv.C37.judge rest out
   | _ => "bad-judge"
 
 partial def loop (h : IO.FS.Stream) (out : IO.FS.Stream) (f : List String → String) : IO Unit := do
